@@ -68,3 +68,68 @@ def coq_items(items):
 
 def coq_residue(res):
     return coq_list(["(%d, %d, %s, %d)" % (c, k, coq_bool(d), p) for c, k, d, p in sorted(res)])
+
+
+# ---- keyed correlation (HTTP/2 stream ids, Kafka correlation ids): events (conn, dir, pid, key)
+def keyed_expected(history):
+    reqs, resps = {}, {}
+    for c, d, p, k in history:
+        (reqs if d == "c" else resps)[(c, k)] = p
+    items = {(c, reqs[(c, k)], resps[(c, k)]) for (c, k) in reqs if (c, k) in resps}
+    residue = {(c, k, True, p) for (c, k), p in reqs.items() if (c, k) not in resps}
+    residue |= {(c, k, False, p) for (c, k), p in resps.items() if (c, k) not in reqs}
+    return items, residue
+
+
+def keyed_line(proto, history):
+    return proto + "|" + " ".join("%d:%s:%d:%d" % e for e in history)
+
+
+def coq_kev(history):
+    return coq_list(["((%d, %d), %s, %d)" % (c, k, coq_bool(d == "c"), p) for c, d, p, k in history])
+
+
+def keyed_histories(rng, proto, quick):
+    """Conversations with out-of-order responses; for kafka only histories in which every response
+    follows its request (the polling matcher gives up otherwise: recorded finding)."""
+    out = []
+    shapes = [(1, 1), (2, 2), (2, 1), (3, 3), (3, 2)] if quick else [(1, 1), (2, 2), (2, 1), (3, 3), (3, 2), (4, 4), (4, 3)]
+    for nreq, nresp in shapes:
+        keys = [2 * i + 1 for i in range(nreq)]
+        reqs = [(1, "c", 10 + i, keys[i]) for i in range(nreq)]
+        import itertools
+        for answered in itertools.permutations(range(nreq), nresp):
+            resps = [(1, "s", 20 + i, keys[i]) for i in answered]
+            ms = list(merges([reqs, resps]))
+            if len(ms) > 12:
+                ms = rng.sample(ms, 12)
+            out += ms
+    # two connections with the same keys
+    for _ in range(30 if quick else 300):
+        h = []
+        seqs = []
+        for c in (1, 2):
+            n = rng.randint(1, 4)
+            keys = [2 * i + 1 for i in range(n)]
+            order = list(range(n))
+            rng.shuffle(order)
+            order = order[:rng.randint(0, n)]
+            seqs.append([(c, "c", 100 * c + i, keys[i]) for i in range(n)])
+            seqs.append([(c, "s", 100 * c + 50 + i, keys[i]) for i in order])
+        seqs = [x for x in seqs if x]
+        while seqs:
+            x = rng.choice(seqs)
+            h.append(x.pop(0))
+            seqs = [y for y in seqs if y]
+        out.append(h)
+    if proto == "kafka":
+        def ok(h):
+            seen = set()
+            for c, d, p, k in h:
+                if d == "c":
+                    seen.add((c, k))
+                elif (c, k) not in seen:
+                    return False
+            return True
+        out = [h for h in out if ok(h)]
+    return out
